@@ -1,4 +1,5 @@
 import Cgm.Lemmas.AuditCmd
 import Cgm.Props.C07
 import Cgm.Props.C07b
+import Cgm.Props.C07c
 #audit_namespace Cg.C07
